@@ -273,6 +273,14 @@ theorem walking_and_accepting_show_the_stored_entries (m : Int) (src : List (Lis
   obtain ⟨i, more, e⟩ := Calls.run_inv m ops { src := src } s (Calls.inv_start src) h
   exact ⟨i.oe, more, e⟩
 
+/-- … and what an accept does to the history in such a session: the accepted line appended at its end, or
+nothing (blank line, duplicate of the newest entry, history full) — never anything else, whatever the
+position on the history and the per-line edit histories were. -/
+theorem accepting_appends_the_line_or_nothing (m : Int) (src : List (List Nat)) (ops : List HOp) (s s' : St)
+    (h : runUnedited m { src := src } ops = .ok s) (ha : acceptAndNextCall m s = .ok s') :
+    s'.src = s.src ∨ s'.src = s.src ++ [s.line] :=
+  (Calls.accept_inv m s s' (Calls.run_inv m ops { src := src } s (Calls.inv_start src) h).1 ha).2
+
 -- non-vacuity with a search: history [ab, b, abc], `a` typed, prefix search backward twice: `abc` then `ab`
 example :
     (match runUnedited (-1) { src := [[97, 98], [98], [97, 98, 99]] } [.type 97, .search false false, .search false false] with
